@@ -316,16 +316,10 @@ def r3_2(ctx: Ctx) -> RuleResult:
             rr.bad(ser, ecall, f"the canonical writer applies {epairs}; a single-quoted string needs "
                    f"{sorted(want_enc)}", construct=f"escape {epairs}")
     # the reader chain is applied on the single-quote branch only
-    from sa.flow import parent_map
+    from .common import path_conditions
 
-    parents = parent_map(dec.node)
-    cur: Optional[ast.AST] = dcall
-    guarded = False
-    while cur is not None:
-        par = parents.get(id(cur))
-        if isinstance(par, ast.If) and cur in par.body and "SINGLE_QUOTE" in ast.unparse(par.test):
-            guarded = True
-        cur = par
+    guarded = any("SINGLE_QUOTE" in ast.unparse(t) and isinstance(t, ast.Compare) and isinstance(t.ops[0], ast.Eq) and b
+                  for t, b in path_conditions(dec.node, dcall))
     if guarded:
         rr.ok(dec.loc(dcall), "unescape applied to single-quoted tokens only")
     else:
